@@ -6,10 +6,12 @@ RF = APP + "/src/app/compass/response/response_output_format.rs"
 wit = KaniUnit("c19_wit", APP, modules=[dict(file=RF, src="c19_format_wit.rs")], harnesses=[])
 wit.native_witnesses = ["c19_wit_csv_formatting_keeps_the_search_error"]
 fm = VerusUnit("c19_format", "c19_format", rlimit=30, paired_kani=(wit, []))
-UNITS = [fm, wit]
+aw = KaniUnit("c19_app_wit", APP, modules=[dict(file=APP + "/src/app/compass/compass_app.rs", src="app_wit.rs")], harnesses=[])
+aw.native_witnesses = ["c19_wit_one_record_per_response_in_the_file"]
+UNITS = [fm, wit, aw]
 EXPLANATION = ("ONE clause of C19 only: 'writing a response never removes or replaces information (such as a search error) in the response handed back to the caller'. Decided (Verus, verbatim ResponseOutputFormat::format_response, "
                "both formats, any mapping): every top-level field the response had before formatting is still there with the same value afterwards -- at most ONE field that was not there is added (the reasons why CSV columns could "
-               "not be filled); the JSON formats do not touch the response. The pinned code replaced the search error of a failed query by the CSV messages (found by the witness, fixed in /repo a75a949)")
+               "not be filled); the JSON formats do not touch the response. The pinned code replaced the search error of a failed query by the CSV messages (found by the witness, fixed in /repo a75a949). A native witness runs batches through the real CompassApp::run with newline-delimited JSON file output (parallelism 1..3, both persistence policies): one parseable record per response in the file, input-rejected queries included (those were missing on the pinned code: fixed)")
 NOT_DECIDED = ("the heart of C19: exactly one complete, uninterleaved record per response in the FILE for every parallelism and schedule (Arc<Mutex<File>>, writeln!, flush: Kani has no threads or files, Verus would have to assume "
                "the property); that a JSON record parses back to the response; CSV header and column order; appending runs")
 ASSUMPTIONS = ["the two row pipelines of the Csv arm only READ the response (checked textually: their only use of it is `v.apply_mapping(response)`)", "serde_json::Value as an abstract map of top-level fields; `response[key] = v` sets that one key"]
